@@ -58,6 +58,7 @@ func run(evm *EVM, contract *Contract, input []byte, readOnly bool) ([]byte, err
 				ap, ok := p.(*AdminOP)
 				if ok {
 					ap.SetState(evm.StateDB)
+					ap.SetCaller(contract.CallerAddress)
 				}
 				return p.Run(input)
 			}
